@@ -71,15 +71,45 @@ func c09Specialist(name string) *Specialist {
 		}}
 }
 
-func c09HostRun(second string, withCallbacks bool) {
+// a ChatModel specialist (with a system prompt): stateless, echoes the conversation it is shown
+type c09SpecModel struct{ name string }
+
+func (m *c09SpecModel) echo(in []*schema.Message) *schema.Message {
+	vyield()
+	all := ""
+	for _, x := range in {
+		all += x.Content + "|"
+	}
+	return &schema.Message{Role: schema.Assistant, Content: m.name + ":" + all}
+}
+func (m *c09SpecModel) Generate(ctx context.Context, input []*schema.Message, opts ...model.Option) (*schema.Message, error) {
+	return m.echo(input), nil
+}
+func (m *c09SpecModel) Stream(ctx context.Context, input []*schema.Message, opts ...model.Option) (*schema.StreamReader[*schema.Message], error) {
+	return schema.StreamReaderFromArray([]*schema.Message{m.echo(input)}), nil
+}
+
+func c09ChatSpecialist(name string) *Specialist {
+	return &Specialist{AgentMeta: AgentMeta{Name: name, IntendedUse: "use " + name}, ChatModel: &c09SpecModel{name: name}, SystemPrompt: "sp-" + name}
+}
+
+func c09HostRun(second string, withCallbacks bool) { c09HostRunK(second, withCallbacks, false) }
+
+func c09HostRunK(second string, withCallbacks bool, chat bool) {
 	ctx := context.Background()
 	vcfg("delaybound", 1+vtier())
 	vcfg("race", 1)
 	vcfg("selectfirst", 1)
-	ma, err := NewMultiAgent(ctx, &MultiAgentConfig{
+	mac := &MultiAgentConfig{
 		Host:        Host{ToolCallingModel: &c09Host{}, SystemPrompt: "sys"},
 		Specialists: []*Specialist{c09Specialist("s1"), c09Specialist("s2")},
-	})
+	}
+	sp := ""
+	if chat {
+		mac.Specialists = []*Specialist{c09ChatSpecialist("s1"), c09ChatSpecialist("s2")}
+		sp = "sp-"
+	}
+	ma, err := NewMultiAgent(ctx, mac)
 	vassert(err == nil, "host multi-agent is created")
 	// every conversation starts with a symbolic payload message of its own
 	payload := map[string]string{"A": vsymStr("pa"), second: vsymStr("pb")}
@@ -89,9 +119,9 @@ func c09HostRun(second string, withCallbacks bool) {
 	want := func(who string) string {
 		switch who {
 		case "A", "A2":
-			return "s1:" + payload[who] + "|" + who + "|"
+			return "s1:" + c09Sys(sp, "s1") + payload[who] + "|" + who + "|"
 		case "B":
-			return "s2:" + payload[who] + "|" + who + "|"
+			return "s2:" + c09Sys(sp, "s2") + payload[who] + "|" + who + "|"
 		}
 		return "direct:" + who
 	}
@@ -157,3 +187,14 @@ func c09HostRun(second string, withCallbacks bool) {
 
 func VerifC09Host()         { c09HostRun([]string{"B", "A2", "C"}[vchoose("second", 3)], false) }
 func VerifC09HostCallback() { c09HostRun([]string{"B", "C"}[vchoose("second", 2)], true) }
+
+func c09Sys(sp, name string) string {
+	if sp == "" {
+		return ""
+	}
+	return sp + name + "|"
+}
+
+// ChatModel specialists with a system prompt: the input each run's specialist sees is that run's conversation behind
+// the system message, also when two runs are handed to the same specialist at once
+func VerifC09HostChatModel() { c09HostRunK([]string{"A2", "B"}[vchoose("second", 2)], false, true) }
